@@ -34,10 +34,23 @@ func ruleC16ExecFile(p *Prog, a *Anchors, r *Report) {
 		if tokParam == nil || f.Signature.Results().Len() != 1 || f.Blocks == nil {
 			continue
 		}
-		for _, al := range errorAllocs(a, f) {
+		allocs := errorAllocs(a, f)
+		fromTok := 0
+		for _, al := range allocs {
+			if !builtWithoutTokenT5(al, tokParam) {
+				fromTok++
+			}
+		}
+		for _, al := range allocs {
 			n++
 			key := p.FuncName(f) + ":Filename"
 			vals := p.fieldStores([]*ssa.Alloc{al}, fi)
+			if fromTok > 0 && fromTok < len(allocs) && len(vals) > 0 && builtWithoutTokenT5(al, tokParam) {
+				// `if token == nil { return &Error{Filename: <executing template>} }`: the literal of the token-less
+				// case; the one built when a token is given is judged below
+				r.OK(key, p.InstrPos(al), "built only when no token is given: Filename falls back to %s", p.VN(vals[0]))
+				continue
+			}
 			ok := false
 			for _, v := range vals {
 				toks, _ := tokenOfFieldLoad(p, v, "Filename", 0)
@@ -110,13 +123,18 @@ func ruleC16ExecFile(p *Prog, a *Anchors, r *Report) {
 				}
 			}
 		}
+		if !found {
+			// the choice of the fallback token may live in a helper (errorToken()): what counts is that the remembered
+			// token can become the Token of the Error built here
+			found = parserFallbackFlowsT5(p, a, pe)
+		}
 		switch {
 		case tokParam == nil:
 			r.Unk("(*Parser).Error:fallback", p.Pos(pe.Pos()), "Parser.Error has no token parameter")
 		case found:
 			r.OK("(*Parser).Error:fallback", p.Pos(pe.Pos()), "without a token the error falls back (also) to the token the parser remembers")
 		default:
-			r.Bad("(*Parser).Error:fallback", p.Pos(pe.Pos()), "Parser.Error(msg, nil) of a parser without tokens yields an error without position although the parser remembers the tag's name token: {% now %} in an included template is reported at a line/column of the including template")
+			r.Bad("(*Parser).Error:fallback", p.Pos(pe.Pos()), "Parser.Error(msg, nil) of a parser without tokens yields an error without position although the parser remembers the tag's name token: {%% now %%} in an included template is reported at a line/column of the including template")
 		}
 	}
 }
@@ -152,12 +170,31 @@ func ruleC16File(p *Prog, a *Anchors, r *Report) {
 	exec := a.ExecReach()
 	fi := fieldIndex(a.Error, "Filename")
 	for _, f := range p.inPkgFuncsSorted(compile) {
-		if exec[f] && !compileOnlyByName(p, f) {
+		if !compileSideT5(p, f, compile, exec, 0) {
 			continue // reached at execution too (e.g. FromFile via lazy include is still a compile step: handled below)
 		}
 		for _, al := range errorAllocs(a, f) {
 			key := p.FuncName(f) + ":&Error{}"
 			vals := p.fieldStores([]*ssa.Alloc{al}, fi)
+			if sites := ctorSitesT5(p, f, al); sites != nil {
+				// a constructor function (fromFileError(filename, err)): every call of it constructs an Error, with
+				// the Filename that call passes
+				for _, site := range sites {
+					skey := p.FuncName(site.Parent()) + ":&Error{}"
+					ok := len(vals) > 0
+					for _, v := range vals {
+						if mayBeEmptyAtSiteT5(v, site, 0) {
+							ok = false
+						}
+					}
+					if ok {
+						r.OK(skey, p.InstrPos(site), "Filename = %s (built by %s)", p.VN(atSiteT5(vals[0], site)), p.FuncName(f))
+					} else {
+						r.Bad(skey, p.InstrPos(site), "a compile error is constructed without a Filename: the error does not name the template it occurred in")
+					}
+				}
+				continue
+			}
 			ok := len(vals) > 0
 			for _, v := range vals {
 				if mayBeEmptyConst(v, 0) {
@@ -291,7 +328,10 @@ func ruleC16Pair(p *Prog, a *Anchors, r *Report) {
 			if g.line == nil && g.col == nil {
 				continue
 			}
-			key := p.FuncName(f) + ":position"
+			// stores in a setter that only the completing method calls are that method's
+			ownerFn := pairOwnerT5(p, f, firstNonNil(g.line, g.col).(*ssa.Store).Addr.(*ssa.FieldAddr).X)
+			owner := p.FuncName(ownerFn)
+			key := owner + ":position"
 			if g.line == nil || g.col == nil {
 				r.Bad(key, p.InstrPos(firstNonNil(g.line, g.col)), "only one of Line/Column is set")
 				continue
@@ -353,15 +393,15 @@ func ruleC16Pair(p *Prog, a *Anchors, r *Report) {
 					}
 				}
 				if post {
-					r.OK(p.FuncName(f)+":token-with-position", p.InstrPos(g.tok), "wherever Token is stored, Line/Column are stored too")
+					r.OK(owner+":token-with-position", p.InstrPos(g.tok), "wherever Token is stored, Line/Column are stored too")
 				} else {
-					r.Bad(p.FuncName(f)+":token-with-position", p.InstrPos(g.tok), "Error.Token is stored on a path on which Line/Column are not (the error already has a position): the message then reads `Line 2 Col 7 near '<text of a token somewhere else>'`")
+					r.Bad(owner+":token-with-position", p.InstrPos(g.tok), "Error.Token is stored on a path on which Line/Column are not (the error already has a position): the message then reads `Line 2 Col 7 near '<text of a token somewhere else>'`")
 				}
 			}
 			// completing an existing error (not one built here): the position of token T may only be given to an
 			// error that names T's source — its Filename is T.Filename afterwards, on every path
 			if _, fresh := stripLoad(g.line.Addr.(*ssa.FieldAddr).X).(*ssa.Alloc); !fresh && len(lt) > 0 {
-				fkey := p.FuncName(f) + ":position:filename"
+				fkey := owner + ":position:filename"
 				okFile := false
 				if g.file != nil {
 					ft, _ := tokenOfFieldLoad(p, g.file.Val, "Filename", 0)
@@ -381,7 +421,7 @@ func ruleC16Pair(p *Prog, a *Anchors, r *Report) {
 				}
 				if !okFile {
 					// or: the position is only given when the error names no source / the same source
-					okFile = Guarded(g.line, func(c ssa.Value, pol bool) bool {
+					sameSource := func(c ssa.Value, pol bool) bool {
 						bo, ok := c.(*ssa.BinOp)
 						if !ok || bo.Op != token.EQL || !pol {
 							return false
@@ -390,7 +430,12 @@ func ruleC16Pair(p *Prog, a *Anchors, r *Report) {
 						tx, _ := tokenOfFieldLoad(p, bo.X, "Filename", 0)
 						ty, _ := tokenOfFieldLoad(p, bo.Y, "Filename", 0)
 						return (fx && len(ty) > 0) || (fy && len(tx) > 0)
-					})
+					}
+					okFile = Guarded(g.line, sameSource)
+					if !okFile && paramIndexT5(f, g.line.Addr.(*ssa.FieldAddr).X) >= 0 {
+						// … the test may stand in the method that calls the setter
+						okFile = sitesGuardedT5(p, f, sameSource, 0)
+					}
 				}
 				if okFile {
 					r.OK(fkey, p.InstrPos(g.line), "the completed error names the source of the token that provides its position")
@@ -399,8 +444,8 @@ func ruleC16Pair(p *Prog, a *Anchors, r *Report) {
 				}
 			}
 			// execution errors: Filename from the same token
-			if recv := topLevel(f).Signature.Recv(); recv != nil && structOf(recv.Type()) != nil && structOf(recv.Type()).Obj().Name() == "ExecutionContext" {
-				fkey := p.FuncName(f) + ":filename"
+			if isExecCtxMethodT5(f) || isExecCtxMethodT5(ownerFn) {
+				fkey := owner + ":filename"
 				if g.file == nil {
 					r.Bad(fkey, p.InstrPos(g.line), "an execution error with a position has no Filename")
 					continue
